@@ -4,6 +4,7 @@ import (
 	"go/constant"
 	"go/token"
 	"io/fs"
+	"strings"
 
 	"golang.org/x/tools/go/ssa"
 )
@@ -88,6 +89,40 @@ func SliceLow(sl *ssa.Slice) ssa.Value {
 // (x&m) == 0, (x&m) != m  -> set when it is false. The AND may be written
 // either way round.
 func BitTest(v ssa.Value) (operand ssa.Value, mask int64, setWhenTrue bool, ok bool) {
+	// a predicate helper of the module that is nothing but such a test of its
+	// parameters (`func modeHas(m, bits os.FileMode) bool { return m&bits != 0 }`,
+	// `m&mask == mask`): the call is the test, with the arguments in place of
+	// the parameters
+	if call, isCall := v.(*ssa.Call); isCall {
+		h := call.Call.StaticCallee()
+		if h == nil || h.Pkg == nil || !strings.HasPrefix(h.Pkg.Pkg.Path(), "github.com/tonistiigi/fsutil") || len(h.Blocks) != 1 || len(h.Params) != len(call.Call.Args) || len(h.Blocks[0].Instrs) > 8 {
+			return nil, 0, false, false
+		}
+		ret, isRet := h.Blocks[0].Instrs[len(h.Blocks[0].Instrs)-1].(*ssa.Return)
+		if !isRet || len(ret.Results) != 1 {
+			return nil, 0, false, false
+		}
+		subst := map[ssa.Value]ssa.Value{}
+		for i, q := range h.Params {
+			subst[q] = call.Call.Args[i]
+		}
+		return bitTestIn(ret.Results[0], subst)
+	}
+	return bitTestIn(v, nil)
+}
+
+func bitTestIn(v ssa.Value, subst map[ssa.Value]ssa.Value) (operand ssa.Value, mask int64, setWhenTrue bool, ok bool) {
+	val := func(x ssa.Value) ssa.Value {
+		if y, has := subst[x]; has {
+			return y
+		}
+		if cv, isCv := x.(*ssa.ChangeType); isCv {
+			if y, has := subst[cv.X]; has {
+				return y
+			}
+		}
+		return x
+	}
 	cmp, isB := v.(*ssa.BinOp)
 	if !isB || (cmp.Op != token.EQL && cmp.Op != token.NEQ) {
 		return nil, 0, false, false
@@ -100,16 +135,16 @@ func BitTest(v ssa.Value) (operand ssa.Value, mask int64, setWhenTrue bool, ok b
 	if !isAnd || ab.Op != token.AND {
 		return nil, 0, false, false
 	}
-	m, isK := ConstInt(ab.Y)
-	operand = ab.X
+	m, isK := ConstInt(val(ab.Y))
+	operand = val(ab.X)
 	if !isK {
-		m, isK = ConstInt(ab.X)
-		operand = ab.Y
+		m, isK = ConstInt(val(ab.X))
+		operand = val(ab.Y)
 	}
 	if !isK {
 		return nil, 0, false, false
 	}
-	r, isR := ConstInt(rhs)
+	r, isR := ConstInt(val(rhs))
 	if !isR {
 		return nil, 0, false, false
 	}
